@@ -144,7 +144,7 @@ func (x *famCtx) nameIdx(n string) int {
 func (x *famCtx) structBody(i int) string {
 	t := x.t.Types[i]
 	var b strings.Builder
-	b.WriteString("struct {\n\tc int32\n")
+	b.WriteString("struct {\n\tCn int32\n")
 	for _, e := range t.Emb {
 		star := ""
 		if e.Kind == "p" {
@@ -173,7 +173,7 @@ func (x *famCtx) mkBody(i int) (mk, nw, bump string) {
 	T := x.tyIdent(i)
 	mk = fmt.Sprintf("func() %s { return %s{%s} }", T, T, strings.Join(fs, ", "))
 	nw = fmt.Sprintf("func() *%s { v := %s(); return &v }", T, x.fnRef("Mk", i, t.Pkg))
-	bump = fmt.Sprintf("func(p *%s) { p.c++; %s }", T, strings.Join(bs, "; "))
+	bump = fmt.Sprintf("func(p *%s) { p.Cn++; %s }", T, strings.Join(bs, "; "))
 	return
 }
 
@@ -201,29 +201,33 @@ func (x *famCtx) ifaceLit(q int) string {
 	return "interface{ " + strings.Join(parts, "; ") + " }"
 }
 
+// hasX: forms whose operand is (the address of) a variable the probe can read afterwards.
+func hasX(form string) bool { return form != "ifaceV" && form != "mvalIV" }
+
 // probe returns the statements of one dispatch probe. T, mk, bump are written
-// for the package the code goes to.
-func probe(form, T, mk, bump, n string) string {
+// for the package the code goes to; cref is the selector of the target
+// object's counter below the variable x (".F7B.F7C.Cn").
+func probe(form, T, mk, bump, n, cref string) string {
 	il := "interface{ " + n + "() int32 }"
 	switch form {
 	case "direct":
-		return fmt.Sprintf("{ x := %s(); a := x.%s(); b := x.%s(); println(a, b) }", mk, n, n)
+		return fmt.Sprintf("{ x := %s(); a := x.%s(); b := x.%s(); println(a, b, x%s) }", mk, n, n, cref)
 	case "ifaceV":
 		return fmt.Sprintf("{ var v %s = %s(); a := v.%s(); b := v.%s(); println(a, b) }", il, mk, n, n)
 	case "ifaceP":
-		return fmt.Sprintf("{ x := %s(); var v %s = &x; a := v.%s(); b := v.%s(); println(a, b) }", mk, il, n, n)
+		return fmt.Sprintf("{ x := %s(); var v %s = &x; a := v.%s(); b := v.%s(); println(a, b, x%s) }", mk, il, n, n, cref)
 	case "mvalV":
-		return fmt.Sprintf("{ x := %s(); f := x.%s; %s(&x); a := f(); b := f(); println(a, b) }", mk, n, bump)
+		return fmt.Sprintf("{ x := %s(); f := x.%s; %s(&x); a := f(); b := f(); println(a, b, x%s) }", mk, n, bump, cref)
 	case "mvalP":
-		return fmt.Sprintf("{ x := %s(); p := &x; f := p.%s; %s(p); a := f(); b := f(); println(a, b) }", mk, n, bump)
+		return fmt.Sprintf("{ x := %s(); p := &x; f := p.%s; %s(p); a := f(); b := f(); println(a, b, x%s) }", mk, n, bump, cref)
 	case "mvalIV":
 		return fmt.Sprintf("{ var v %s = %s(); f := v.%s; a := f(); b := f(); println(a, b) }", il, mk, n)
 	case "mvalIP":
-		return fmt.Sprintf("{ x := %s(); var v %s = &x; f := v.%s; %s(&x); a := f(); b := f(); println(a, b) }", mk, il, n, bump)
+		return fmt.Sprintf("{ x := %s(); var v %s = &x; f := v.%s; %s(&x); a := f(); b := f(); println(a, b, x%s) }", mk, il, n, bump, cref)
 	case "mexprV":
-		return fmt.Sprintf("{ x := %s(); a := %s.%s(x); b := %s.%s(x); println(a, b) }", mk, T, n, T, n)
+		return fmt.Sprintf("{ x := %s(); a := %s.%s(x); b := %s.%s(x); println(a, b, x%s) }", mk, T, n, T, n, cref)
 	case "mexprP":
-		return fmt.Sprintf("{ x := %s(); a := (*%s).%s(&x); b := (*%s).%s(&x); println(a, b) }", mk, T, n, T, n)
+		return fmt.Sprintf("{ x := %s(); a := (*%s).%s(&x); b := (*%s).%s(&x); println(a, b, x%s) }", mk, T, n, T, n, cref)
 	}
 	panic("form " + form)
 }
@@ -254,7 +258,7 @@ func renderFamily(b *batch, f *famProg) {
 			if d == "p" {
 				recv = "*" + T
 			}
-			fmt.Fprintf(pb, "func (r %s) %s() int32 { r.c++; return %d + r.c }\n", recv, x.names[k], (i+1)*100+(k+1)*10)
+			fmt.Fprintf(pb, "func (r %s) %s() int32 { r.Cn++; return %d + r.Cn }\n", recv, x.names[k], (i+1)*100+(k+1)*10)
 		}
 		mk, nw, bump := x.mkBody(i)
 		fmt.Fprintf(pb, "func Mk%s_%d() %s %s\n", pre, i+1, T, strings.TrimPrefix(mk, "func() "+T))
@@ -301,7 +305,11 @@ func renderFamily(b *batch, f *famProg) {
 		T := x.tyRef(i, from)
 		for _, di := range staticProbes[i] {
 			d := t.Disp[di]
-			out = append(out, probe(d.Form, T, x.fnRef("Mk", i, from), x.fnRef("Bump", i, from), t.Mids[d.M-1][1]))
+			cref := ""
+			for _, j := range d.Path {
+				cref += "." + x.tyIdent(j-1)
+			}
+			out = append(out, probe(d.Form, T, x.fnRef("Mk", i, from), x.fnRef("Bump", i, from), t.Mids[d.M-1][1], cref+".Cn"))
 		}
 		return out
 	}
@@ -423,6 +431,12 @@ func renderFamily(b *batch, f *famProg) {
 		code := d.Target*100 + x.nameIdx(t.Mids[d.M-1][1])*10
 		return fmt.Sprintf("%d %d", code+d.A, code+d.B)
 	}
+	dispWantX := func(d Disp) string {
+		if hasX(d.Form) {
+			return fmt.Sprintf("%s %d", dispWant(d), d.C)
+		}
+		return dispWant(d)
+	}
 	for i, td := range t.Types {
 		if td.Fn == "" {
 			fmt.Fprintf(mb, "\t%sProbe%s_%d()\n", qual("main", td.Pkg), pre, i+1)
@@ -430,7 +444,7 @@ func renderFamily(b *batch, f *famProg) {
 			fmt.Fprintf(mb, "\t%s%s(%d)\n", pre, td.Fn, i+1)
 		}
 		for _, di := range staticProbes[i] {
-			add(cell{want: dispWant(t.Disp[di]), kind: "disp", a: di})
+			add(cell{want: dispWantX(t.Disp[di]), kind: "disp", a: di})
 		}
 	}
 	for _, di := range helperProbes {
